@@ -129,7 +129,7 @@ claimed["C13"] = dict(
          "[globals whose mask meets the kind, in order] ++ [route middleware], each once; Route.Handle bare, "
          "Route.HandleMiddleware route part only, Update replaces the route part, another route's creation changes nothing. "
          "The concurrent-creation clause is listed in level_note.",
-    design="5 C13", technique=T, note="Concurrent creation of routes (data race on the shared middleware slice) is not decided by this check yet.")
+    design="5 C13", technique=T, note="Concurrent creation of routes is decided by the C13Conc harness (two NewRoute threads, 0..4 global middleware) under the happens-before race monitor.")
 claimed["C19"] = dict(
     text="Bounded symbolic execution of the real option closures, New, NewRoute, Handle, Update, Route accessors and "
          "Context.ClientIP: every option sequence within the bounds (booleans solver-chosen) folds to the documented state "
@@ -145,7 +145,7 @@ claimed["C12"] = dict(
          "documented function of the current request (distinct tokens per request in every field), and clones re-read "
          "after later requests still show their own request. Sequential histories only; see level_note.",
     design="5 C12", technique="bounded symbolic execution of go/ssa + SMT; exhaustive shape sequences x pool choices by decision search; native replay",
-    note="Concurrent mixes of requests are not decided by this check.")
+    note="Concurrent requests are decided for two threads by the C12Conc harness under the race monitor; larger mixes are outside the bound.")
 
 claimed["C18"] = dict(
     text="Three obligations by bounded symbolic execution of the real clientip package: (a) for every IPv4 and IPv6 address "
@@ -163,6 +163,17 @@ claimed["C06"] = dict(
          "a blocked-forever violation with its witness); conversely a second writer does block. This is the behavioural "
          "counterpart, over all inputs in the bound, of the call-graph argument that read paths never take the writer lock.",
     design="5 C06", technique="bounded symbolic execution of go/ssa + SMT with a mutex-owner (blocked) monitor; native replay by timeout")
+
+claimed["C05"] = dict(
+    text="Bounded exploration, by the symbolic executor's cooperative thread layer, of every interleaving at "
+         "synchronisation granularity (mutex, atomic pointer, sync.Pool, thread start/exit) with a pre-emption bound, of "
+         "small thread programs over the real code: writers against writers (different / same route, Update vs Delete), a "
+         "two-route transaction against a reader, a writer against two requests, an aborted transaction against a reader, "
+         "two requests, two NewRoute calls. On every schedule the observable obligations hold (no lost update, exactly one "
+         "winner, all-or-nothing snapshots, monotonic reads, aborted writes invisible, no panic) and the vector-clock "
+         "happens-before monitor reports no unordered conflicting access on any heap cell.",
+    design="5 C05", technique="bounded symbolic execution of go/ssa with schedule choices as decision variables + happens-before race monitor; races confirmed with go test -race",
+    note="Weakest fit of the technique: pattern choices and schedules are enumerated by the executor's decision search (the solver only keeps the path condition); thread counts, operation counts and pre-emptions are small and stated.")
 
 reasons = {}
 
